@@ -9,11 +9,12 @@ for l in lines:
     seed, prop, rc, rest = m.group(1), m.group(2), int(m.group(3)), m.group(4)
     sigs = sorted(set(re.findall(r"signature=(C\d\d/\S+)", rest)))
     rows.append((seed, prop, rc, sigs))
-extra = {"C06b": ("C06", 1, ["C06/tee/end-rejected (failing pull swallowed; after the mapping fix)"]),
-         "C01b": ("C01", 0, [])}
+extra = {"C01b": ("C01", 0, [])}
+OBSOLETE = {"C18b": "made harmless by fix 4e889ba (chain now closes its owned iterators itself): the demo passes with the patch, so it is no longer a property-breaking change"}
 out = ["# Seeded changes x checks", "",
        "Each change was written by an independent sub-agent from the text of one property only, confirmed here",
        "(`tools/seed_confirm.sh`: applies to /repo HEAD, 388 tests pass, demo fails with / passes without the patch) and run",
+       "(variants a, b: first round; c, d: second round, written knowing only the summaries of the first)",
        "against the quick check of its property with `tools/seed_run.sh` (scratch worktree of /repo HEAD + patch).", "",
        "| seed | property | summary | needs | caught (exit 1) | signatures (first 3) |", "|---|---|---|---|---|---|"]
 for seed, prop, rc, sigs in rows:
@@ -25,11 +26,16 @@ for seed, prop, rc, sigs in rows:
                          "demo": "exit 1 with the patch, exit 0 without", "how": "tools/seed_confirm.sh seeded/" + seed}
     meta["checked_with"] = f"tools/seed_run.sh seeded/{seed} {prop}  (VERIF_REPO=<worktree with patch> ./check {prop} --tier quick)"
     meta["caught"] = bool(rc == 1)
+    if seed in OBSOLETE:
+        meta["obsolete"] = OBSOLETE[seed]
     meta["signatures"] = sigs[:8]
     json.dump(meta, open(mp, "w"), indent=1)
     summ = str(meta.get("summary", "")).replace("|", "/")[:160]
     need = str(meta.get("needs_to_manifest", "")).replace("|", "/")[:140]
-    out.append(f"| {seed} | {prop} | {summ} | {need} | {'yes' if rc == 1 else 'NO' if rc == 0 else 'machinery error'} | {'<br>'.join(sigs[:3])} |")
+    verdict = 'yes' if rc == 1 else 'NO' if rc == 0 else 'machinery error'
+    if seed in OBSOLETE:
+        verdict = 'obsolete (was caught: C18/chain/unreleased-unstarted-source-after-cancel)'
+    out.append(f"| {seed} | {prop} | {summ} | {need} | {verdict} | {'<br>'.join(sigs[:3])} |")
 out += ["", "Not caught: C01b (a tee child yields a fetched item directly instead of through its buffer) only manifests with concurrent",
         "consumers, no lock and a suspending source - outside the premise of C09 ('a lock is supplied, or the source never suspends'), and",
         "sequential use (C01) is unaffected; on the unchanged tree that configuration already loses items (the negative Tee config)."]
